@@ -278,7 +278,9 @@ def run_shard(desc) -> Acc:
                                  f"unsubscribe({g:#x}) of a group absent from the NCP table wrote {ws}, returned {ret!r}")
                     elif ws:
                         i, mid, epn, a = ws[0]
-                        if mid != g or epn != 0 or before[i][0] != g:
+                        # the entry that held the group is written with endpoint 0 ("not programmed"); what group id the
+                        # cleared entry carries is open
+                        if epn != 0 or before[i][0] != g:
                             viol("C15/unsubscribe/wrong-entry-written", f"unsubscribe({g:#x}) wrote {ws[0]} over {before[i]}")
                         if a == "ok":
                             acc.hit("unsub_ok")
